@@ -29,6 +29,11 @@ def symbolize(exe, cls):
     return " [sites: " + " / ".join(out) + "]" if out else ""
 
 
+FLAGS = ["-DRFC6531_FOLLOW_RFC5322", "-DRFC6531_FOLLOW_RFC20", "-DLABELS_ALLOW_UNDERSCORE"]
+VARIANTS = {"-idn": ([], "idn"), "-idnkit": ([], "idnkit"), "-crowd": (["-DSIM_MAXT=321", "-DSIM_NCELL_LOG=14"], "idn2"),
+            "-extra": (["-DEAV_EXTRA"], "idn2"), "-flags": (FLAGS, "idn2"), "-ndebug": (["-DNDEBUG"], "idn2")}
+
+
 def main(tier, replay=None):
     seed = core.seed_from_env()
     t0 = time.time()
@@ -36,6 +41,10 @@ def main(tier, replay=None):
     if replay:
         with open(replay) as f:
             rep = json.load(f)
+        variant = (rep.get("backend") or "sched")[len("sched"):]
+        if variant in VARIANTS:     # found on another build of the same sources: replay on that build
+            defs, bk = VARIANTS[variant]
+            exe, _ = build.build_sched(variant, defs, backend=bk)
         r = exec_plans(exe, rep["plans"], log=True)
         for l in r["logs"]:
             print("  " + l)
@@ -70,7 +79,7 @@ def main(tier, replay=None):
     batches.append(Batch("crowd", exe_c, "C14", "crowd", seed + 8, 160 if q else 10**8, 60 if q else 120, W, extra=extra("crowd")).run())
     if tier == "thorough":
         # other build configurations of the same sources: EAV_EXTRA (strndup'd lpart/domain), and the optional grammar flags
-        for vn, defs in (("-extra", ["-DEAV_EXTRA"]), ("-flags", ["-DRFC6531_FOLLOW_RFC5322", "-DRFC6531_FOLLOW_RFC20", "-DLABELS_ALLOW_UNDERSCORE"])):
+        for vn, defs in (("-extra", ["-DEAV_EXTRA"]), ("-flags", FLAGS), ("-ndebug", ["-DNDEBUG"])):
             exe_v, _ = build.build_sched(vn, defs)
             batches.append(Batch("swarm" + vn, exe_v, "C14", "swarm", seed + 3, 10**8, 90, W, extra=extra("swarm" + vn)).run())
     violations, known, nondet = handle_candidates("C14", batches, budget=250)
@@ -100,7 +109,7 @@ def main(tier, replay=None):
         "evaluations": done,
         "distinct_nontrivial": len(nont),
         "rule": ("plan = 2-16 thread programs (1-30 calls each: own eav_t set-up/validation/free + stateless validators on strings shared by pointer between all threads) "
-                 "+ in one plan of four object handoff: leading calls of a program (or just eav_init) made by the main thread before the workers start, trailing calls and eav_free made by it after the join "
+                 "+ in one plan of four object handoff: leading calls of a program (or just eav_init) made by the main thread before the workers start, trailing calls and eav_free made by it after the join; in one plan of six relay: single calls of a program made by other live workers, the object handed on with release/acquire "
                  "+ a scheduling strategy drawn per plan (random switch p in {1/2..1/256}, PCT depth 1-4, round-robin quantum 1-17); the executed context-switch list is recorded and is what replays; "
                  "distinct = distinct (plan hash x interleaving hash over (thread, site) of every logged event); non-trivial = >=2 context switches and >=1 logged shared-memory-capable event"),
         "samples": samples or [{"note": "no sample captured"}],
@@ -116,7 +125,8 @@ def main(tier, replay=None):
         "fault_kinds": {"preemption_at_every_logged_event": {"context_switches_executed": st.get("context_switches", 0)},
                         "note": "the injected 'fault' of this check is the adversarial schedule; allocation failures are attached to individual calls in one plan out of six (an abort inside the library is an outcome compared with the sequential run)",
                         "allocation_failure_attached_to_call": st.get("alloc_faults_attached", 0),
-                        "object_handoff_between_main_and_worker": st.get("handoff_plans", 0)},
+                        "object_handoff_between_main_and_worker": st.get("handoff_plans", 0),
+                        "object_relay_between_live_workers": st.get("objects_handed_between_live_workers", 0)},
         "components": {"real_or_stub": ["libeav (src/*.c, partial/idn2/*.c): real code compiled with -fsanitize=thread instrumentation, linked against sim/sched/rt.cpp instead of libtsan",
                                         "threads: real pthreads, one runnable at a time (futex baton); the scheduler alone decides who runs",
                                         "libidn2: real, uninstrumented, executes atomically between two scheduling points",
@@ -136,7 +146,7 @@ def main(tier, replay=None):
             zero.append("op kind " + k)
     if not st.get("context_switches"):
         zero.append("context switches")
-    for k in ("handoff_plans", "calls_by_main_before_start", "calls_by_main_after_join", "alloc_faults_attached"):
+    for k in ("relay_plans", "objects_handed_between_live_workers", "handoff_plans", "calls_by_main_before_start", "calls_by_main_after_join", "alloc_faults_attached"):
         if not st.get(k):
             zero.append(k)
     cov["probes_at_zero"] = zero
